@@ -420,8 +420,13 @@ pub fn gen_combo_rule(d: &Data, r: &mut Rng) -> String {
 /// rules that parse but fail when applied (unbound alpha, unknown variable, deleting the only
 /// segment): a small pool, so that the same text recurs at different (group, line) positions
 /// in different calls and the *error payloads* are compared across histories
-pub const RUNTIME_ERR_RULES: [&str; 8] =
-    ["a > [Avoice]", "V > [Aback]", "C > [-Anas]", "C > 1", "V > 2:[+long]", "[] > *", "$ > *", "p > [Avoice, Bcont]"];
+pub const RUNTIME_ERR_RULES: [&str; 14] = [
+    "a > [Avoice]", "V > [Aback]", "C > [-Anas]", "C > 1", "V > 2:[+long]", "[] > *", "$ > *", "p > [Avoice, Bcont]",
+    // fail after a length change has already been made in the same match
+    "V C > [+long] $", "V $ > [+long] [+nasal]", "V:[+long] C > [-long] $",
+    // fail only when a word has nothing else left: deletion at a word edge
+    "% > * / _#", "% > * / #_", "[] > * / _#",
+];
 
 pub fn gen_rule(d: &Data, r: &mut Rng) -> String {
     if r.chance(1, 20) {
